@@ -229,7 +229,9 @@ def r06_3_ident_ascii(chk):
     for f in ix.functions.values():
         if not isinstance(f.node, (ast.FunctionDef, ast.AsyncFunctionDef)):
             continue
-        fs = chk.terms.summary(f)
+        # (the fixed FILE-HEADER labels are literals at the call site: look through helpers they are passed to)
+        fs = chk.terms.inline(f, 2, stop=lambda g, f=f: g.module is not f.module or g.name == "__init__") \
+            if f.cls is not None and f.cls.name == "FileHeaderSet" else chk.terms.summary(f)
         for c in fs.all_calls():
             nm = call_name(c)
             if nm in ("write_struct_ident", "write_struct_ascii", "get_ascii_bytes"):
